@@ -60,137 +60,20 @@ func (P *Program) methodsImplementing(iface types.Type, m *types.Func) []*ssa.Fu
 }
 
 func (P *Program) buildCallGraph1() {
+	// edges from the VTA call graph (static calls, interface calls and calls through function values
+	// resolved by type propagation over the whole program, standard library included)
 	P.cgEdges = map[*ssa.Function][]*ssa.Function{}
-	byName := map[string][]*ssa.Function{}
-	var addrTaken []*ssa.Function
-	taken := map[*ssa.Function]bool{}
-	var falcoFns []*ssa.Function
-	for fn := range P.allFuncs {
-		if !inFalco(fn) || fn.Blocks == nil {
+	g := P.vtaGraph()
+	for fn, n := range g.Nodes {
+		if fn == nil {
 			continue
 		}
-		falcoFns = append(falcoFns, fn)
-		if fn.Signature.Recv() != nil {
-			byName[fn.Name()] = append(byName[fn.Name()], fn)
-		}
-	}
-	for _, fn := range falcoFns {
-		for _, b := range fn.Blocks {
-			for _, ins := range b.Instrs {
-				// functions used as values
-				var ops []*ssa.Value
-				ops = ins.Operands(ops)
-				call, isCall := ins.(ssa.CallInstruction)
-				for _, op := range ops {
-					if op == nil || *op == nil {
-						continue
-					}
-					if f, ok := (*op).(*ssa.Function); ok {
-						if isCall && call.Common().Value == f {
-							continue
-						}
-						if !taken[f] && inFalco(f) {
-							taken[f] = true
-							addrTaken = append(addrTaken, f)
-						}
-					}
-					if mc, ok := (*op).(*ssa.MakeClosure); ok {
-						if f, ok := mc.Fn.(*ssa.Function); ok && !taken[f] {
-							taken[f] = true
-							addrTaken = append(addrTaken, f)
-						}
-					}
-				}
-			}
-		}
-	}
-	P.cgDyn = addrTaken
-	for _, fn := range falcoFns {
 		seen := map[*ssa.Function]bool{}
-		add := func(f *ssa.Function) {
-			if f != nil && !seen[f] && inFalco(f) && f.Blocks != nil {
-				seen[f] = true
-				P.cgEdges[fn] = append(P.cgEdges[fn], f)
-			}
-		}
-		addSig := func(sig *types.Signature) {
-			for _, f := range addrTaken {
-				if sameSig(f.Signature, sig) {
-					add(f)
-				}
-			}
-		}
-		addIface := func(v ssa.Value) {
-			if mi, ok := v.(*ssa.MakeInterface); ok {
-				ms := P.prog.MethodSets.MethodSet(mi.X.Type())
-				for k := 0; k < ms.Len(); k++ {
-					add(P.prog.MethodValue(ms.At(k)))
-				}
-				return
-			}
-			if it, ok := v.Type().Underlying().(*types.Interface); ok {
-				if it.NumMethods() == 0 {
-					// `any`: fmt-style functions call String()/Error()/Format... (assumed heap-pure observers)
-					return
-				}
-				for k := 0; k < it.NumMethods(); k++ {
-					for _, f := range P.methodsImplementing(v.Type(), it.Method(k)) {
-						add(f)
-					}
-				}
-			}
-		}
-		for _, b := range fn.Blocks {
-			for _, ins := range b.Instrs {
-				if mc, ok := ins.(*ssa.MakeClosure); ok {
-					_ = mc // closures become callable only where their value flows; covered by signature matching
-				}
-				if g, ok := ins.(*ssa.Go); ok {
-					_ = g
-				}
-				call, ok := ins.(ssa.CallInstruction)
-				if !ok {
-					continue
-				}
-				c := call.Common()
-				if c.IsInvoke() {
-					for _, f := range P.methodsImplementing(c.Value.Type(), c.Method) {
-						add(f)
-					}
-					continue
-				}
-				if _, ok := c.Value.(*ssa.Builtin); ok {
-					continue
-				}
-				if callee := c.StaticCallee(); callee != nil {
-					if inFalco(callee) {
-						add(callee)
-						continue
-					}
-					// external function: may call back what it is given
-					for _, a := range c.Args {
-						switch a.Type().Underlying().(type) {
-						case *types.Signature:
-							switch x := a.(type) {
-							case *ssa.Function:
-								add(x)
-							case *ssa.MakeClosure:
-								if f, ok := x.Fn.(*ssa.Function); ok {
-									add(f)
-								}
-							default:
-								addSig(a.Type().Underlying().(*types.Signature))
-							}
-						case *types.Interface:
-							addIface(a)
-						}
-					}
-					continue
-				}
-				// dynamic call through a function value
-				if sig, ok := c.Value.Type().Underlying().(*types.Signature); ok {
-					addSig(sig)
-				}
+		for _, e := range n.Out {
+			c := e.Callee.Func
+			if c != nil && !seen[c] {
+				seen[c] = true
+				P.cgEdges[fn] = append(P.cgEdges[fn], c)
 			}
 		}
 	}
@@ -222,51 +105,15 @@ func (P *Program) mayReach(from *ssa.Function, targets map[*ssa.Function]bool) b
 	if from == nil {
 		return true
 	}
-	if !inFalco(from) {
-		// external code: reaches falco only through callbacks of matching signature / interfaces
-		sig := from.Signature
-		P.buildCallGraph()
-		for k := 0; k < sig.Params().Len(); k++ {
-			switch u := sig.Params().At(k).Type().Underlying().(type) {
-			case *types.Signature:
-				for _, f := range P.cgDyn {
-					if sameSig(f.Signature, u) && P.mayReach(f, targets) {
-						return true
-					}
-				}
-			case *types.Interface:
-				for m := 0; m < u.NumMethods(); m++ {
-					for _, f := range P.methodsImplementing(sig.Params().At(k).Type(), u.Method(m)) {
-						if P.mayReach(f, targets) {
-							return true
-						}
-					}
-				}
-			}
-		}
-		return false
-	}
-	P.buildCallGraph()
-	seen := map[*ssa.Function]bool{}
-	stack := []*ssa.Function{from}
-	dynDone := false
-	for len(stack) > 0 {
-		f := stack[len(stack)-1]
-		stack = stack[:len(stack)-1]
-		if seen[f] {
-			continue
-		}
-		seen[f] = true
+	found := false
+	P.reachWalk(from, func(f *ssa.Function) bool {
 		if targets[f] {
-			return true
+			found = true
+			return false
 		}
-		stack = append(stack, P.cgEdges[f]...)
-		if P.cgIsDyn[f] && !dynDone {
-			dynDone = true
-			stack = append(stack, P.cgDyn...)
-		}
-	}
-	return false
+		return true
+	})
+	return found
 }
 
 // havocGhosts forgets the ghost fields that a call to callee (nil = unknown) may change.
